@@ -274,6 +274,9 @@ def build_gen() -> str:
 
 def translate(ctx):
     ctx.gen_write("LayoutsR", build_gen())
+    from .c10 import translate as conventions  # Gen/Conventions.lean: wfn_type_codes_published reads the wfn / wfx tables
+
+    conventions(ctx)
 
 
 # ---------------------------------------------------------------------------------------------
@@ -1106,7 +1109,39 @@ def search(ctx):
     if ctx.escalated:
         for key, fm in FORMATS.items():
             run_format(ctx, key, ctx.n(*fm["n"]) * 3, do_corr=False)
+    vasp_spellings(ctx)
     _tokens.search(ctx)  # exploration: log parsers without a published layout
+
+
+def vasp_spellings(ctx):
+    """VASP reads only the first character of the two keyword lines: `S`/`s` switches selective dynamics on, `C`, `c`,
+    `K`, `k` mean Cartesian coordinates, anything else direct ones.  The same model written with every spelling must
+    load to the same object."""
+    rng = ctx.rng
+    cart = ["Cartesian", "cartesian", "C", "c", "K", "k", "Kartesian", "kartesian", "CART"]
+    direct = ["Direct", "direct", "D", "d", "Direct configuration=     1", "Fractional"]
+    sel = ["Selective dynamics", "selective dynamics", "S", "s", "Selective"]
+    fm = FORMATS["vasp"]
+    for i in range(ctx.n(40, 300)):
+        m, cls = fm["gen"](rng, i, ctx.thorough)
+        lines = fm["write"](m).decode().split("\n")
+        k = 7 + (1 if m["sel"] else 0)
+        if lines[k] not in ("Cartesian", "Direct"):
+            continue
+        word = rng.choice(cart if m["cart"] else direct)
+        lines[k] = word
+        if m["sel"]:
+            lines[k - 1] = rng.choice(sel)
+        py = "\n".join(lines).encode()
+        expect = fm["expect"](m)
+        line = fm["impl"](py, expect, m)
+        ok = line == expect
+        ctx.count("spec-load:vasp-spellings", py.hex()[:6000], f"{word.split()[0][:4]}/{'sel' if m['sel'] else 'nosel'}" + ("" if ok else "/DIFF"))
+        if not ok:
+            ctx.fail(f"vasp:spec:mode-line-spelling:{word[0]}",
+                     f"VASP file whose coordinate-mode line is spelled {word!r} is not loaded as "
+                     f"{'Cartesian' if m['cart'] else 'direct'} coordinates ({_diff_kind(line, expect, fm.get('fields'))})",
+                     {"kind": "readers", "format": "vasp", "sub": fm["load"](m), "hex": py.hex(), "expect": expect})
 
 
 def replay(ctx, obj):
